@@ -1,0 +1,199 @@
+//go:build verif
+
+// Contracts for package ast, read by /verif/govc. Not part of a normal build.
+
+package ast
+
+func forall(lo, hi int, p func(k int) bool) bool {
+	for k := lo; k < hi; k++ {
+		if !p(k) {
+			return false
+		}
+	}
+	return true
+}
+
+func old[T any](x T) T { return x }
+
+// Evaluating an expression node is treated as a function of the node and of the
+// environment (it allocates result nodes but has no other effect): the contracts of
+// the fold loops below quantify over "the result of evaluating child k".
+//@ func (Exp).Eval
+//@ option pure
+
+// specIsNum: the expression is a fully evaluated numeric constant.
+func specIsNum(e Exp) bool {
+	_, ok := e.(*NumberExp)
+	return ok
+}
+
+// specNumVal: the value of a fully evaluated numeric constant (0 otherwise).
+func specNumVal(e Exp) int64 {
+	n, ok := e.(*NumberExp)
+	if !ok {
+		return 0
+	}
+	return n.Value
+}
+
+// specEval: the expression that evaluating e in env yields.
+func specEval(e Exp, env Env) Exp {
+	r, _ := e.Eval(env)
+	return r
+}
+
+// specApplyMul: one step of a left-to-right product: 64-bit two's complement
+// multiplication, division truncating toward zero, remainder with the sign of the
+// dividend (the usual integer semantics, which are Go's).
+func specApplyMul(op string, acc, v int64) int64 {
+	switch op {
+	case "*":
+		return acc * v
+	case "/":
+		return acc / v
+	case "%":
+		return acc % v
+	}
+	return acc
+}
+
+// specMulOpsOK: the first n operators are * / % and no / or % has a zero divisor.
+func specMulStepOK(op string, v int64) bool {
+	return op == "*" || ((op == "/" || op == "%") && v != 0)
+}
+
+// specStepsOK: the first n steps of the product are defined (operators are * / %,
+// no division or remainder by zero).
+func specStepsOK(m *MultExp, env Env, n int) bool {
+	if n <= 0 {
+		return true
+	}
+	return specStepsOK(m, env, n-1) && specMulStepOK(m.Operators[n-1], specNumVal(specEval(m.TailExps[n-1], env)))
+}
+
+// specFoldMul: the value of  head op1 t1 op2 t2 ... opn tn  with all operators of
+// equal precedence associated from left to right, where t_k is the value the k-th
+// tail evaluates to.
+func specFoldMul(m *MultExp, env Env, n int) int64 {
+	if n <= 0 {
+		return specNumVal(specEval(m.HeadExp, env))
+	}
+	return specApplyMul(m.Operators[n-1], specFoldMul(m, env, n-1), specNumVal(specEval(m.TailExps[n-1], env)))
+}
+
+//@ func (*MultExp).Eval
+//@ props C06 C11
+//@ requires[A1] m != nil && env != nil && m.HeadExp != nil && len(m.Operators) == len(m.TailExps)
+//@ requires[A11] forall(0, len(m.TailExps), func(k int) bool { return m.TailExps[k] != nil })
+//@ loop 0 invariant len(evalTailExps) == len(m.TailExps) && forall(0, iter, func(k int) bool { return evalTailExps[k] == specEval(m.TailExps[k], env) }) && (allTailsAreNumbers ==> forall(0, iter, func(k int) bool { return specIsNum(evalTailExps[k]) }))
+//@ loop 1 invariant[val] currentValue == specFoldMul(m, env, iter)
+//@ loop 1 invariant[ok] specStepsOK(m, env, iter)
+//@ ensures[fold] len(m.Operators) > 0 && result1 && specIsNum(result0) && specIsNum(specEval(m.HeadExp, env)) && forall(0, len(m.TailExps), func(k int) bool { return specIsNum(specEval(m.TailExps[k], env)) }) ==> specNumVal(result0) == specFoldMul(m, env, len(m.Operators))
+//@ ensures[single] len(m.Operators) == 0 ==> result0 == specEval(m.HeadExp, env)
+
+// specConstOf: the integer a fully evaluated child denotes, as the environment's
+// GetConstValue sees it (second result false if it is not a constant).
+func specConstOK(e Exp, env Env) bool {
+	_, ok := env.GetConstValue(e)
+	return ok
+}
+
+func specConstVal(e Exp, env Env) int {
+	v, _ := env.GetConstValue(e)
+	return v
+}
+
+// specTermFoldable: the k-th tail (k >= 1) is a constant joined by + or -.
+func specTermFoldable(a *AddExp, env Env, k int) bool {
+	return specConstOK(specEval(a.TailExps[k-1], env), env) && (a.Operators[k-1] == "+" || a.Operators[k-1] == "-")
+}
+
+// specAllFoldable: the head and the first n tails are all constants joined by + or -.
+func specAllFoldable(a *AddExp, env Env, n int) bool {
+	if n <= 0 {
+		return specConstOK(specEval(a.HeadExp, env), env)
+	}
+	return specAllFoldable(a, env, n-1) && specTermFoldable(a, env, n)
+}
+
+// specSumAdd: head +- t1 +- ... +- tn over the constant terms, associated from left to
+// right (terms that are not constants contribute nothing to the constant part).
+func specSumAdd(a *AddExp, env Env, n int) int {
+	if n <= 0 {
+		if specConstOK(specEval(a.HeadExp, env), env) {
+			return specConstVal(specEval(a.HeadExp, env), env)
+		}
+		return 0
+	}
+	prev := specSumAdd(a, env, n-1)
+	if !specConstOK(specEval(a.TailExps[n-1], env), env) {
+		return prev
+	}
+	switch a.Operators[n-1] {
+	case "+":
+		return prev + specConstVal(specEval(a.TailExps[n-1], env), env)
+	case "-":
+		return prev - specConstVal(specEval(a.TailExps[n-1], env), env)
+	}
+	return prev
+}
+
+//@ func (*AddExp).Eval
+//@ props C06 C11
+//@ requires[A1] a != nil && env != nil && a.HeadExp != nil && len(a.Operators) == len(a.TailExps)
+//@ requires[A11] forall(0, len(a.TailExps), func(k int) bool { return a.TailExps[k] != nil })
+//@ loop 0 invariant[sum] constSum == specSumAdd(a, env, iter)
+//@ loop 0 invariant[all] (len(newTerms) == 0) == specAllFoldable(a, env, iter)
+//@ loop 1 invariant true
+//@ ensures[sum] specAllFoldable(a, env, len(a.Operators)) ==> result1 && specIsNum(result0) && specNumVal(result0) == int64(specSumAdd(a, env, len(a.Operators)))
+
+// specNumberFactorVal: the value of a decimal literal factor.
+func specIsNumberFactor(f Factor) bool {
+	_, ok := f.(*NumberFactor)
+	return ok
+}
+
+func specNumberFactorVal(f Factor) int {
+	n, ok := f.(*NumberFactor)
+	if !ok {
+		return 0
+	}
+	return n.Value
+}
+
+// specIdentName: the name of an identifier factor ("" if the factor is not one).
+func specIsIdentFactor(f Factor) bool {
+	_, ok := f.(*IdentFactor)
+	return ok
+}
+
+func specIdentName(f Factor) string {
+	n, ok := f.(*IdentFactor)
+	if !ok {
+		return ""
+	}
+	return n.Value
+}
+
+func specMacroDefined(env Env, name string) bool {
+	_, ok := env.LookupMacro(name)
+	return ok
+}
+
+func specMacroBody(env Env, name string) Exp {
+	e, _ := env.LookupMacro(name)
+	return e
+}
+
+//@ func (*ImmExp).Eval
+//@ props C06 C11 C03
+//@ requires[A1] imm != nil && env != nil
+//@ requires[A12] !specIsIdentFactor(imm.Factor) || !specMacroDefined(env, specIdentName(imm.Factor)) || specMacroBody(env, specIdentName(imm.Factor)) != nil
+//@ ensures[number] specIsNumberFactor(imm.Factor) ==> result1 && specIsNum(result0) && specNumVal(result0) == int64(specNumberFactorVal(imm.Factor))
+//@ ensures[dollar] specIsIdentFactor(imm.Factor) && specIdentName(imm.Factor) == "$" ==> result1 && specIsNum(result0) && specNumVal(result0) == int64(env.GetLOC())
+//@ ensures[macro]  specIsIdentFactor(imm.Factor) && specIdentName(imm.Factor) != "$" && specMacroDefined(env, specIdentName(imm.Factor)) && specMacroBody(env, specIdentName(imm.Factor)) != nil ==> result0 == specEval(specMacroBody(env, specIdentName(imm.Factor)), env)
+//@ ensures[label]  specIsIdentFactor(imm.Factor) && specIdentName(imm.Factor) != "$" && !specMacroDefined(env, specIdentName(imm.Factor)) ==> !result1
+
+//@ func parseHex
+//@ props C06
+//@ ensures[prefix] result1 ==> len(s) >= 2
